@@ -562,6 +562,22 @@ pub trait Store<E: RangeEntry>: Sized {
     /// Returns `true` if the entry was inserted.
     /// Returns `false` if it was not inserted.
     fn put(&mut self, entry: E) -> Result<InsertOutcome, Self::Error> {
+        // The parent check, the pruning and the write must become durable together: a store
+        // that commits on its own must not do so between these steps.
+        self.hold_commit(true)?;
+        let res = self.put_inner(entry);
+        self.hold_commit(false)?;
+        res
+    }
+
+    /// Ask the store to hold (or stop holding) commits that it would perform on its own between
+    /// the accesses of a multi-step operation. Stores without such commits need not do anything.
+    fn hold_commit(&mut self, _hold: bool) -> Result<(), Self::Error> {
+        Ok(())
+    }
+
+    /// The steps of [`Self::put`].
+    fn put_inner(&mut self, entry: E) -> Result<InsertOutcome, Self::Error> {
         let prefix_entry = self.prefixes_of(entry.key())?;
         // First we check if our entry is strictly greater than all parent elements.
         // From the willow spec:
@@ -667,6 +683,10 @@ impl<E: RangeEntry, S: Store<E>> Store<E> for &mut S {
         predicate: impl Fn(&<E as RangeEntry>::Value) -> bool,
     ) -> Result<usize, Self::Error> {
         (**self).remove_prefix_filtered(prefix, predicate)
+    }
+
+    fn hold_commit(&mut self, hold: bool) -> Result<(), Self::Error> {
+        (**self).hold_commit(hold)
     }
 }
 
